@@ -400,6 +400,9 @@ def run(chk):
     st_ = folder.try_fold(xo.node.body[1].value if False else next((n.value for n in own_nodes(xo.node) if isinstance(n, ast.Assign) and src(n.targets[0]) == "supported_doctypes"), ast.Constant(None)), Scope(xo.mod), None)
     chk.check(st_ is not None and set(st_) == {"eds", "dcf"}, "R9", f"{OD}:export_od | supported document types", xo.loc(), f"{st_}")
 
+    # ------------------------------------------------------------------ R12 the same device information (DeviceInfo tables of both directions; shared with C08.R5)
+    from . import c08 as _c08di
+    _c08di.device_info(chk, "R12")
     # ------------------------------------------------------------------ R11 re-import resolves $NODEID against the document's node id (shared with C08.R7)
     from . import c08 as _c08
     _c08.node_id_in_force(chk, "R11")
